@@ -263,6 +263,8 @@ func init() {
 	n["time.Now"] = func(in *Interp, fr *frame, a []Value) Value {
 		k, _ := in.ext["now"].(int64)
 		in.ext["now"] = k + 1
+		off, _ := in.ext["clockOffsetMs"].(int64)
+		k += off
 		local := in.prog.ImportedPackage("time").Var("Local")
 		loc := in.load(PtrV{C: in.global(local)}, types.NewPointer(in.world.namedType("time", "Location")))
 		// 2024-01-01T00:00:00Z + k milliseconds; ext holds seconds since year 1
@@ -283,6 +285,18 @@ func init() {
 	}
 
 	n["time.initLocal"] = func(in *Interp, fr *frame, a []Value) Value { return nil }
+	// verifClockAdvanceTo(unixMilli): the harness' virtual clock jumps forward (a blocked read
+	// returns when its deadline is reached)
+	intrinsics["verifClockAdvanceTo"] = func(in *Interp, fr *frame, a []Value) Value {
+		t := in.mustConst(a[0].(*Term), "clock target")
+		k, _ := in.ext["now"].(int64)
+		off, _ := in.ext["clockOffsetMs"].(int64)
+		now := int64(1704067200000) + k + off
+		if t > now {
+			in.ext["clockOffsetMs"] = off + (t - now)
+		}
+		return nil
+	}
 	intrinsics["verifSettle"] = func(in *Interp, fr *frame, a []Value) Value {
 		for i := 0; i < 64 && in.pickNext(in.co.current) != nil; i++ {
 			in.yieldUntil(nil)
